@@ -62,6 +62,13 @@ pub struct PSim {
     run_d: u64,
     run_n: u64,
     pend_wait: bool,
+    /// environment script of a TLC-generated behaviour: "K" (the driver's next call / delay), "S" (a system call of
+    /// the handle), "X" / "R" / "U" (the child exits / is reaped by somebody else / its pid is reused).  The
+    /// environment steps are applied at the schedule point in front of which the model had them.
+    pub script: Option<Vec<u8>>,
+    pub spos: usize,
+    pub script_exit: Option<Status>,
+    pub script_drift: bool,
 }
 
 pub static mut PSIM: Option<Box<PSim>> = None;
@@ -98,7 +105,61 @@ impl PSim {
             run_d: 0,
             run_n: 0,
             pend_wait: false,
+            script: None,
+            spos: 0,
+            script_exit: None,
+            script_drift: false,
         }
+    }
+
+    /// schedule point of class `class` (b'K' or b'S'): apply the scripted environment steps in front of it
+    pub fn script_point(&mut self, class: u8) {
+        let sc = match self.script.take() {
+            Some(x) => x,
+            None => return,
+        };
+        loop {
+            match sc.get(self.spos).copied() {
+                Some(b'X') => {
+                    if self.st == St::Running {
+                        let s = self.script_exit.clone().unwrap_or(Status { exited: true, val: 0 });
+                        self.st = St::Zombie;
+                        self.status = Some(s.clone());
+                        self.exit_time = Some(self.now);
+                        self.log(json!({"e":"exit","st":s.json(),"at":tpair(self.now)}));
+                    }
+                }
+                Some(b'R') => {
+                    if self.st == St::Zombie {
+                        self.st = St::ReapedExt;
+                        self.xreap_time = Some(self.now);
+                        self.log(json!({"e":"xreap","at":tpair(self.now)}));
+                    }
+                }
+                Some(b'U') => {
+                    if self.st == St::ReapedExt {
+                        self.st = St::Alien;
+                        self.log(json!({"e":"reuse","at":tpair(self.now)}));
+                    }
+                }
+                Some(c) if c == class => {
+                    self.spos += 1;
+                    break;
+                }
+                Some(b'S') if class == b'K' => {
+                    // the model expected another system call of the handle: the code made fewer
+                    self.script_drift = true;
+                }
+                Some(_) => {
+                    // the code makes a system call the model did not: leave the script where it is
+                    self.script_drift = true;
+                    break;
+                }
+                None => break,
+            }
+            self.spos += 1;
+        }
+        self.script = Some(sc);
     }
 
     fn flush_run(&mut self) {
@@ -207,6 +268,7 @@ impl PSim {
 
     pub unsafe fn sys_waitpid(&mut self, status: *mut c_int, flags: c_int) -> c_int {
         self.count_sys();
+        self.script_point(b'S');
         self.env_due();
         let nohang = flags & libc::WNOHANG != 0;
         if self.st == St::Running && !nohang {
@@ -265,6 +327,7 @@ impl PSim {
 
     pub fn sys_kill(&mut self, sig: c_int) -> c_int {
         self.count_sys();
+        self.script_point(b'S');
         self.env_due();
         let (ret, errno) = match self.st {
             St::Running => {
@@ -279,7 +342,7 @@ impl PSim {
                 if sig == libc::SIGCONT {
                     self.stopped = false;
                 }
-                if fatal {
+                if fatal && self.script.is_none() {
                     let t = self.now + self.kill_latency;
                     let sooner = self.exit_at.as_ref().map_or(true, |x| t < x.0);
                     if sooner {
@@ -306,6 +369,7 @@ impl PSim {
 
     pub fn sys_sleep(&mut self, d: u64) {
         self.count_sys();
+        self.script_point(b'S');
         let to = self.now + d + self.overshoot;
         let quiet = self.next_env().map_or(true, |t| t > to);
         let ms = d / 1_000_000;
